@@ -526,6 +526,45 @@ def r7(ctx, rep):
                         and "RelationColumn" in str(ctx.cg.recv_type_at(f["file"], r_["r"]["l"], "as_single") or "RelationColumn"):
                     rep.bad(f"optional-unwrap:{f['path']}:as_single", f"`{show(u, maxdepth=6)}`: the name inside `RelationColumn::Single` is None for an unnamed column (`from [{{1, 2}}]` crashed here); "
                             "unwrapping it panics", file=f["file"], line=u["l"], fn=f["path"])
+    # a table keyed by column NAMES (`HashMap<RelationColumn, _>`): the name comes from the program text, so a miss is an ordinary case
+    # (a column called like an internal declaration, `_infer`, resolves to that declaration and is not in the table)
+    import guards
+    n_named = 0
+    for fid, fn_ in ctx.cg.fns.items():
+        if fn_["crate"] != "prqlc":
+            continue
+        for r in fn_["refs"]:
+            if r["kind"] != "call" or r["def"].rsplit("::", 1)[-1] not in ("get", "get_mut", "remove", "index") or not re.search(r"HashMap<[\w:]*RelationColumn,", r.get("recv") or ""):
+                continue
+            n_named += 1
+            sf = syn.fn_at(r["file"], r["l"])
+            owner = ctx.cg.owner_fn(fid)["path"]
+            if r["def"].endswith("index"):
+                rep.bad(f"name-keyed-lookup:{owner}", "indexing a table keyed by column names panics when the name is missing", file=r["file"], line=r["l"], fn=owner)
+                continue
+            if not sf or "body" not in sf:
+                continue
+            par = guards.parents(sf["body"])
+            for n in walk(sf["body"]):
+                if n.get("k") == "mcall" and n["m"] in ("get", "get_mut", "remove") and n["l"] == r["l"]:
+                    p_ = par.get(id(n))
+                    bad = None
+                    if p_ is not None and p_.get("k") == "mcall" and p_["m"] in ("unwrap", "expect"):
+                        bad = "." + p_["m"] + "()"
+                    cur = n
+                    while id(cur) in par and bad is None:
+                        cur = par[id(cur)]
+                        if cur.get("k") == "if" and cur["c"].get("k") == "let" and cur.get("e") is not None:
+                            if any(x.get("k") == "macro" and x["n"] in ("panic", "unreachable", "todo", "unimplemented") for x in walk(cur["e"])):
+                                bad = "panic in the `else` of the lookup"
+                            break
+                        if cur.get("k") == "match":
+                            if any("None" in show(a["pat"]) and any(x.get("k") == "macro" and x["n"] in ("panic", "unreachable", "todo", "unimplemented") for x in walk(a["body"])) for a in cur["arms"]):
+                                bad = "panic in the None arm of the lookup"
+                            break
+                    rep.check(bad is None, f"name-keyed-lookup:{owner}", f"`{show(n, maxdepth=5)}` looks a column NAME up; a miss ends in {bad}: `from t | select {{_infer, a}}` crashed the compiler here "
+                              "(the name resolves to the internal inference slot, which the table does not hold)", file=r["file"], line=r["l"], fn=owner)
+    rep.check(n_named >= 1, "name-keyed:sites", f"expected the lookup of lookup_cid in a HashMap<RelationColumn, _>, found {n_named}")
     rep.check(n_acc >= 1, "optional:accessors", f"expected >= 1 use of `.as_single()` in the compiler crate, found {n_acc}")
 
 
